@@ -59,7 +59,11 @@ theorem c04_success_charges_exactly (s : Store) (cost : Nat) (cur : Cur) (d : Bo
 
 /-- A spend that reports failure removes nothing and creates nothing: net worth, debt, the sum of the
     balances, the GTP balance and the audit counter are unchanged (a refused ATP spend may still have moved
-    NADH into ATP — that is a conversion inside the store, not a charge). -/
+    NADH into ATP — that is a conversion inside the store, not a charge).
+    Over histories: the converted NADH may leave ATP above `max_atp` (cost larger than the capacity), and a LATER ATP
+    `regenerate` clamps ATP back to the capacity (last example of this file: ATP 8 → `regenerate 1` → 5) — the
+    refused spend itself is free, the energy is lost by the clamp of the next regeneration; regeneration has only an
+    upper bound (`c04_regenerate_adds_at_most`), as in the property text. -/
 theorem c04_failure_is_free (s : Store) (cost : Nat) (cur : Cur) (d : Bool) (p : Nat)
     (h : (consumeO cls obs s cost cur d p).2.1 = .ok false) :
     (consumeO cls obs s cost cur d p).1.worth = s.worth ∧ (consumeO cls obs s cost cur d p).1.debt = s.debt ∧
@@ -187,7 +191,9 @@ theorem c04_only_inflow_creates (sys : Sys) (op : Op) (wf : Sys.WF sys) (h : op.
 /-- Without regeneration (no `regenerate`, no `reset`) the total cost of the spends that reported success,
     over all stores of the colony, is bounded by what the colony could pay at the start: its balances plus
     the unused part of its debt limits (`room`).  Transfers between the stores, conversions, dormancy and
-    interest are allowed in the history. -/
+    interest are allowed in the history.  "Reported success" is literal (`paid` counts `.bool true` only, as the
+    property does): a spend interrupted by a raising observer was charged exactly its cost
+    (`c04_interrupted_spend_charged_exactly`) but counts 0 here — the bound stays true, it just does not count that spend. -/
 theorem c04_total_spend_bounded (sys : Sys) (ops : List Op) (wf : Sys.WF sys)
     (h : ∀ op ∈ ops, op.inflow = false) :
     spentOf ops (run cls adv k sys ops).2 ≤ sumOf Store.room sys := by
